@@ -12,6 +12,8 @@
 //   cfidx <cf> B<data> B<rgba palette>        ColorFormat::<cf>.decode_indexed
 //                                             (these two print the error variant: "err <Variant>")
 // Output: "ok B<rgba bytes>" | "err" ; panics are caught in main.rs ("PANIC").
+// Every kind hands its input to the library twice, as a slice starting at an even and at an odd address
+// (at_both_alignments): the model has no addresses, so both results must be the same ("ADDRESS-DEPENDENT ..." otherwise).
 use crate::h_util::*;
 use mila::*;
 
@@ -80,6 +82,27 @@ pub fn tpl_single(w: u16, h: u16, image: &[u8], palette: &[u8]) -> Vec<u8> {
     f
 }
 
+/// Runs `f` on the same bytes at an EVEN and at an ODD start address (a copy inside a padded buffer); the library's result
+/// must not depend on where the caller's slice happens to start.  Both outputs equal -> that output, else a marker.
+fn at_both_alignments<F: Fn(&[u8]) -> String>(data: &[u8], f: F) -> String {
+    let mut buf: Vec<u8> = vec![0xA5u8; data.len() + 2];
+    let base = buf.as_ptr() as usize;
+    let (even_off, odd_off) = if base % 2 == 0 { (0usize, 1usize) } else { (1usize, 0usize) };
+    buf[even_off..even_off + data.len()].copy_from_slice(data);
+    let even = f(&buf[even_off..even_off + data.len()]);
+    for b in buf.iter_mut() {
+        *b = 0x5A;
+    }
+    buf[odd_off..odd_off + data.len()].copy_from_slice(data);
+    let odd = f(&buf[odd_off..odd_off + data.len()]);
+    if even == odd {
+        even
+    } else {
+        let cut = |s: &str| s.chars().take(60).collect::<String>();
+        format!("ADDRESS-DEPENDENT even={} odd={}", cut(&even), cut(&odd))
+    }
+}
+
 fn color_format(tok: &str) -> ColorFormat {
     match tok {
         "0" => ColorFormat::RGBA8,
@@ -115,15 +138,20 @@ pub fn run(toks: &[&str]) -> String {
                 Err(_) => "err".to_string(),
             }
         }
-        "cfdec" => show_cf(color_format(toks[1]).decode(&parse_b(toks[2]))),
-        "cfidx" => show_cf(color_format(toks[1]).decode_indexed(&parse_b(toks[2]), &parse_b(toks[3]))),
+        "cfdec" => at_both_alignments(&parse_b(toks[2]), |d| show_cf(color_format(toks[1]).decode(d))),
+        "cfidx" => {
+            let pal = parse_b(toks[3]);
+            at_both_alignments(&parse_b(toks[2]), |d| {
+                at_both_alignments(&pal, |p| show_cf(color_format(toks[1]).decode_indexed(d, p)))
+            })
+        }
         "color" | "bigcolor" => {
             let fmt: u32 = toks[1].parse().unwrap();
             let w: u16 = toks[2].parse().unwrap();
             let h: u16 = toks[3].parse().unwrap();
             let payload = parse_b(toks[4]);
             let file = ctpk_single(fmt, w, h, &payload);
-            match ctpk::read(&file) {
+            at_both_alignments(&file, |f| match ctpk::read(f) {
                 Ok(t) => {
                     if t.len() != 1 || t[0].width != w as usize || t[0].height != h as usize {
                         return "ok-bad-shape".to_string();
@@ -131,32 +159,34 @@ pub fn run(toks: &[&str]) -> String {
                     format!("ok {}", show_b(&t[0].pixel_data))
                 }
                 Err(_) => "err".to_string(),
-            }
+            })
         }
         "etc" | "bigetc" => {
             let alpha = toks[1] == "1";
             let w: usize = toks[2].parse().unwrap();
             let h: usize = toks[3].parse().unwrap();
             let payload = parse_b(toks[4]);
-            match decode(&payload, w, h, alpha) {
+            at_both_alignments(&payload, |d| match decode(d, w, h, alpha) {
                 Ok(p) => format!("ok {}", show_b(&p)),
                 Err(_) => "err".to_string(),
-            }
+            })
         }
         "rgb5a3" => {
             let data = parse_b(toks[1]);
-            match ColorFormat::RGB5A3.decode(&data) {
+            at_both_alignments(&data, |d| match ColorFormat::RGB5A3.decode(d) {
                 Ok(p) => format!("ok {}", show_b(&p)),
                 Err(_) => "err".to_string(),
-            }
+            })
         }
         "idx" => {
             let data = parse_b(toks[1]);
             let pal = parse_b(toks[2]);
-            match ColorFormat::CI8.decode_indexed(&data, &pal) {
-                Ok(p) => format!("ok {}", show_b(&p)),
-                Err(_) => "err".to_string(),
-            }
+            at_both_alignments(&data, |d| {
+                at_both_alignments(&pal, |pl| match ColorFormat::CI8.decode_indexed(d, pl) {
+                    Ok(p) => format!("ok {}", show_b(&p)),
+                    Err(_) => "err".to_string(),
+                })
+            })
         }
         "pal" | "bigpal" => {
             let w: u16 = toks[1].parse().unwrap();
@@ -164,7 +194,7 @@ pub fn run(toks: &[&str]) -> String {
             let image = parse_b(toks[3]);
             let pal = parse_b(toks[4]);
             let file = tpl_single(w, h, &image, &pal);
-            match tpl::Tpl::extract_textures(&file) {
+            at_both_alignments(&file, |f| match tpl::Tpl::extract_textures(f) {
                 Ok(t) => {
                     if t.len() != 1 || t[0].width != w as usize || t[0].height != h as usize {
                         return "ok-bad-shape".to_string();
@@ -172,7 +202,7 @@ pub fn run(toks: &[&str]) -> String {
                     format!("ok {}", show_b(&t[0].pixel_data))
                 }
                 Err(_) => "err".to_string(),
-            }
+            })
         }
         _ => "bad-subkind".to_string(),
     }
